@@ -18,15 +18,22 @@
 //	tie  K2 "pullid-scope": ALL short histories x subscription points for a PullID subscriber x
 //	     equivalence {none, equal, sameA} (the inner Pull and the harness's shadow Pull are the only
 //	     listeners: two equivalence decisions per bus event).
+//	     racef: TWO subscribers are inside Bus.Listen at the same time (both parked at
+//	     bus.listen.beforeRegister, released in either order): both registrations must take effect.
+//	tie  K4 "stalled-subscriber": a consumer stops receiving (hold); its forwarder takes one change, the
+//	     next Set waits the full 5 s send deadline of Value.set on that listener and gives up; healthy
+//	     subscribers registered before / after it; resume. Each script in a child process of the harness.
 //	monitor "writer-log": the received stream vs the writer's own log (what its calls returned),
 //	     independent of the Lean model.
 package main
 
 import (
+	"bytes"
 	"encoding/json"
 	"fmt"
 	"math/rand"
 	"os"
+	"os/exec"
 	"sort"
 	"strconv"
 	"strings"
@@ -36,6 +43,9 @@ import (
 )
 
 func main() {
+	if js := os.Getenv(childEnv); js != "" {
+		os.Exit(childMain(js))
+	}
 	f := lib.ParseFlags()
 	installHook()
 	if f.Replay != "" {
@@ -55,9 +65,11 @@ func main() {
 		tieS:  res.Tie("small-scope", "K2", "ALL write histories up to the stated length over ids {a,b} (add/update/create-update/delete/failing-precondition) x every subscription point x {plain, updates-only, read mask} subscribers (opened together when there is no equivalence) x equivalence {none, equal}; distinct = distinct scripts"),
 		tieR:  res.Tie("subscribe-during-write", "K4", "a subscriber opens WHILE one write is in flight, steered through the yield points: (a) subscriber parked at {value,coll}.onUpdate.beforeListen (between its snapshot and its bus registration) while the write runs - compared: whether the write is blocked on the resource lock (decided from the goroutine's wait reason) or finishes, the seed, every delivery; (b) write parked at value.set.beforeSend / coll.update.beforeSend (committed, not published) while the subscriber opens. ALL (initial contents, prefix write, write in flight) over the small alphabet, each followed by three follow-up writes, x both kinds x {plain, updates-only, read mask} x equivalence {none, equal}, Collection and Value; (c) write parked inside Bus.Send right after its snapshot of the listeners (bus.send.afterSnapshot) while the subscriber opens, the snapshot holding {no, a cancelled, a cancelled and a live, a live and a cancelled} listener: the new subscriber is seeded with the write, is not served by that Send, survives its garbage collection and receives every follow-up write; (d) a Delete parked right after its first read (coll.delete.afterRead) while another write of the same or another id runs to completion: ALL (initial contents, prefix write, Delete options {none, allow-missing, expected value, expected check}, overtaking write) - compared: both answers and every delivery (the REMOVE must carry the item actually removed); the random K1 histories contain all four kinds of scenario too. distinct = distinct scripts"),
 		tieP:  res.Tie("pullid-scope", "K2", "ALL write histories up to the stated length over {add a, create-update a, masked update of a with write time, update of a to a message whose `a` is 0, delete a, add b} x every subscription point x a PullID(a) subscriber {plain, read mask} x resource equivalence {none, equal, sameA}: the item's seed value flagged seed and last-seed, other ids skipped, the changes of the id the equivalence does not relate forwarded as values, the stream ended by exactly the first delivered REMOVE (a REMOVE the equivalence relates to `no item` is suppressed by the inner Pull and the stream goes on); distinct = distinct scripts"),
+		tieH:  res.Tie("stalled-subscriber", "K4", "a backpressured Value.Pull subscriber whose consumer stops receiving (hold) while the writer goes on: its forwarder takes one change and blocks, the next Set that announces a change waits the full 5 s of Value.set's send deadline on that listener and gives up - ALL listed layouts of healthy subscribers registered before / after the stalled one (plain, read mask, updates-only; with/without initial value; one or two held subscribers; hold before the first write or after one) x the write sequence (a Set the forwarder takes, a Set that finds it stalled, resume, further Sets). Each script runs in its own child process of the harness (the 5 s wait overlaps with the other families); compared: every answer (value and error of each Set, who was handed which event, what the resumed subscriber receives). distinct = distinct scripts"),
 		mon:   res.Monitor("writer-log", "the stream each subscriber received vs the writer's own log: seed = current contents sorted by id, flagged, last flagged last, stored change time; then exactly one event per successful write (none for failed writes or a no-op delete), id/kind/old/new from what the writer's calls returned, time = write time or a clock reading within the write, suppression iff the configured equivalence relates the compared pair"),
 	}
 	r := lib.NewRand(f.Seed)
+	stalls := startStalls(stallScripts(f.Tier == "thorough"))
 	stages := map[string]float64{}
 	t0 := time.Now()
 	lap := func(name string) { stages[name] = time.Since(t0).Seconds(); t0 = time.Now() }
@@ -80,6 +92,16 @@ func main() {
 		h.runScript(s, h.tieFor(s))
 	}
 	lap("random-histories")
+	for _, c := range stalls {
+		code, err := c.wait()
+		if err != nil {
+			h.tieH.Fail(err)
+			continue
+		}
+		h.record(c.s, code, h.tieH)
+	}
+	lap("stalled-subscriber (wait after the other families)")
+	h.tieH.Exhaustive = true
 	res.Extra["stage_seconds"] = stages
 	h.tieS.Exhaustive = true
 	h.tieR.Exhaustive = true
@@ -98,7 +120,7 @@ type harness struct {
 	cover                  *pairCover
 	drv                    *lib.Driver
 	tieC, tieV, tieS, tieR *lib.Tie
-	tieP                   *lib.Tie
+	tieP, tieH             *lib.Tie
 	mon                    *lib.Monitor
 	ops                    int
 	skipped                int // scripts not run because the run was already failing on missing deliveries
@@ -120,7 +142,7 @@ func optOf(o Op, k string) string { v, _ := o.opt(k); return v }
 func isRace(o Op) bool { return o.Op == "racea" || o.Op == "raceb" || o.Op == "racec" }
 
 func opLine(o Op) string {
-	if o.Op == "sub" || o.Op == "unsub" || o.Op == "subid" {
+	if o.Op == "sub" || o.Op == "unsub" || o.Op == "subid" || o.Op == "racef" || o.Op == "hold" || o.Op == "resume" {
 		return o.subLine()
 	}
 	if isRace(o) || o.Op == "racee" {
@@ -137,6 +159,14 @@ type obs struct {
 	ans        string // the answer in the driver's format
 	clk0, clk1 int    // clock counter before / after the call
 	ids        string // id callback invocations of a write
+}
+
+// obsJSON: an obs as a child process hands it to its parent
+type obsJSON struct {
+	Ans  string `json:"ans"`
+	Clk0 int    `json:"clk0"`
+	Clk1 int    `json:"clk1"`
+	IDs  string `json:"ids"`
 }
 
 func runCode(s Script) []obs {
@@ -166,12 +196,20 @@ func runCode(s Script) []obs {
 		case "racee":
 			o.ans = r.raceE(op)
 			o.ids = lastRaceIDs
+		case "racef":
+			o.ans = r.raceF(op)
+		case "hold":
+			o.ans = r.hold(op)
+		case "resume":
+			o.ans = r.resume(op)
 		default:
 			a, sends := r.runWrite(op)
 			if strings.HasPrefix(a, "panic:") || strings.HasPrefix(a, "!") {
 				o.ans = a
 			} else {
+				r.partial = sends > 0 && part(a, "err") != "-"
 				o.ans = fmt.Sprintf("val=%s err=%s | %s", part(a, "val"), part(a, "err"), r.deliveries(sends))
+				r.partial = false
 				o.ids = part(a, "ids")
 			}
 		}
@@ -212,7 +250,11 @@ func (h *harness) runScript(s Script, tie *lib.Tie) {
 		h.skipped++
 		return
 	}
-	code := runCode(s)
+	h.record(s, runCode(s), tie)
+}
+
+// record ties what the code did on a script to the model's answers and runs the monitor on it.
+func (h *harness) record(s Script, code []obs, tie *lib.Tie) {
 	model, err := h.runModel(s)
 	if err != nil {
 		tie.Fail(err)
@@ -224,7 +266,7 @@ func (h *harness) runScript(s Script, tie *lib.Tie) {
 	for i, op := range s.Ops {
 		h.ops++
 		key := s.Cfg.line() + "#" + opLine(op) + "#" + subsDesc + "#" + code[i].ans
-		exh := tie == h.tieS || tie == h.tieR || tie == h.tieP
+		exh := tie == h.tieS || tie == h.tieR || tie == h.tieP || tie == h.tieH
 		if exh {
 			key = scriptKey(s)
 		}
@@ -251,6 +293,10 @@ func (h *harness) runScript(s Script, tie *lib.Tie) {
 			liveSubs[optOf(so, "name")] = so
 		case op.Op == "racee":
 			delete(liveSubs, optOf(op, "cname"))
+		case op.Op == "racef":
+			s1, s2, _ := splitRaceF(op)
+			liveSubs[optOf(s1, "name")] = s1
+			liveSubs[optOf(s2, "name")] = s2
 		}
 		if isRace(op) || op.Op == "racee" {
 			tie.Count(op.Op + ":" + strings.SplitN(code[i].ans, " ", 2)[0])
@@ -276,7 +322,8 @@ func (h *harness) runScript(s Script, tie *lib.Tie) {
 		}
 		h.mon.Eval(key, true, nil)
 		w.check(h.mon, s, i, code[i])
-		if op.Op == "sub" || op.Op == "unsub" || op.Op == "subid" || isRace(op) || op.Op == "racee" {
+		if op.Op == "sub" || op.Op == "unsub" || op.Op == "subid" || isRace(op) || op.Op == "racee" || op.Op == "racef" ||
+			op.Op == "hold" || op.Op == "resume" {
 			subsDesc += opLine(op) + ";"
 		}
 	}
@@ -306,14 +353,27 @@ type subState struct {
 	last  string  // Value: the last value delivered ("nil" if none)
 	pid   *string // PullID: the (intercepted) id
 	ended bool    // PullID: the item was removed, the stream has ended
+	held  bool    // its consumer is not receiving: what it is owed is due when it resumes
+	owed  []owedEvent
+	// Sets that gave up announcing while it was held (its forwarder may have been handed their event)
+	dlFailed int
+}
+
+// owedEvent: an event of a successful write a held subscriber has not received yet
+type owedEvent struct {
+	val string
+	t   refEntry
 }
 
 type writerLog struct {
-	cfg   Cfg
-	ref   map[string]refEntry // collection contents as the writer knows them
-	val   *refEntry
-	subs  map[string]*subState
-	order []string
+	cfg Cfg
+	ref map[string]refEntry // collection contents as the writer knows them
+	// a Set gave up announcing ("blocked for too long"): the writer was told it failed, what is stored
+	// is not known to the writer until its next successful Set
+	valUnknown bool
+	val        *refEntry
+	subs       map[string]*subState
+	order      []string
 }
 
 func newWriterLog(cfg Cfg) *writerLog {
@@ -394,8 +454,10 @@ func (w *writerLog) clone() *writerLog {
 	}
 	for k, v := range w.subs {
 		sv := *v
+		sv.owed = append([]owedEvent(nil), v.owed...)
 		c.subs[k] = &sv
 	}
+	c.valUnknown = w.valUnknown
 	return c
 }
 
@@ -437,6 +499,24 @@ func (w *writerLog) check(m *lib.Monitor, s Script, i int, o obs) {
 		w.checkRaceD(m, in, sig, op, o)
 	case "racee":
 		w.checkRaceE(m, in, sig, op, o)
+	case "racef":
+		// two subscribers whose registrations overlapped: each is seeded from the current contents, and
+		// each is open from here on (checked by the delivery check of the writes that follow)
+		s1, s2, order := splitRaceF(op)
+		a2 := "seed=" + part(o.ans, "seed2")
+		if order == "21" {
+			w.checkSub(m, in, sig, s2, a2)
+			w.checkSub(m, in, sig, s1, o.ans)
+		} else {
+			w.checkSub(m, in, sig, s1, o.ans)
+			w.checkSub(m, in, sig, s2, a2)
+		}
+	case "hold":
+		if st := w.subs[optOf(op, "name")]; st != nil {
+			st.held = true
+		}
+	case "resume":
+		w.checkResume(m, in, sig, op, o)
 	default:
 		exp, evTime := w.applyWrite(m, in, op, o)
 		w.checkDeliveries(m, in, sig, exp, evTime, o.ans)
@@ -620,6 +700,15 @@ func (w *writerLog) checkSub(m *lib.Monitor, in map[string]any, sig string, op O
 		f := strings.Split(got[0], "|")
 		want := proj(w.val.msg, st.rm)
 		t := f[1]
+		if w.valUnknown {
+			// the last Set was reported as failed after it had stored its value: the writer cannot tell
+			// which value is current (only that the seed is flagged as one)
+			if f[2] != "SL" {
+				m.Violate(sig+"/seed/wrong-flags", "seed of a Value must be flagged seed and last-seed", in, "SL", f[2])
+			}
+			st.last = f[0]
+			return
+		}
 		switch {
 		case f[0] != want:
 			m.Violate(sig+"/seed/wrong-value", "seed value is not the (projected) current value", in, want, f[0])
@@ -676,10 +765,14 @@ func (w *writerLog) applyWrite(m *lib.Monitor, in map[string]any, op Op, o obs) 
 	switch {
 	case errc != "-" || val == "nil":
 		// failed write, or Delete of a missing id with allow-missing: nothing changed
+		if op.Op == "vset" && errc == "Unknown" && w.stalled() {
+			w.valUnknown = true
+		}
 	case op.Op == "vset":
 		exp = &[5]string{"", "", "", val}
 		ent.msg = val
 		w.val = &ent
+		w.valUnknown = false
 	case op.Op == "del":
 		id := w.icpt(op.ID)
 		old, ok := w.ref[id]
@@ -719,6 +812,18 @@ func (w *writerLog) checkDeliveries(m *lib.Monitor, in map[string]any, sig strin
 			continue
 		}
 		got := splitList(part(o.ans, name))
+		if st.held {
+			// nothing can be received while held; the event of a successful write is owed
+			if len(got) > 0 {
+				m.Violate(sig+"/held-subscriber-received", "a subscriber that was not receiving received an event", in, "[]", part(o.ans, name))
+			}
+			if exp != nil {
+				st.owed = append(st.owed, owedEvent{val: proj(exp[3], st.rm), t: evTime})
+			} else if w.stalled() && part(o.ans, "err") == "Unknown" {
+				st.dlFailed++
+			}
+			continue
+		}
 		var want []string
 		suppressed := false
 		if exp != nil {
@@ -740,6 +845,9 @@ func (w *writerLog) checkDeliveries(m *lib.Monitor, in map[string]any, sig strin
 			}
 		}
 		switch {
+		case len(got) > 0 && exp == nil && w.stalled() && part(o.ans, "err") == "Unknown":
+			m.Violate(sig+"/event-for-deadline-failed-write", "a Set that gave up announcing (a subscriber registered later did not take the event in time) was reported as failed, yet this subscriber was handed its event", in, "[]", part(o.ans, name))
+			continue
 		case len(got) > 0 && exp == nil:
 			m.Violate(sig+"/event-for-failed-write", "a failed (or no-op) write produced an event", in, "[]", part(o.ans, name))
 			continue
@@ -784,6 +892,54 @@ func (w *writerLog) checkDeliveries(m *lib.Monitor, in map[string]any, sig strin
 		case !evTime.timeOK(t):
 			m.Violate(sig+"/wrong-time", "change time is neither the write time nor a clock reading taken during the write", in, fmt.Sprint(evTime), f[1])
 		}
+	}
+}
+
+// stalled: some held subscriber is owed an event (its forwarder holds it: the next announcement finds
+// that listener not taking events)
+func (w *writerLog) stalled() bool {
+	for _, st := range w.subs {
+		if st.held && len(st.owed) > 0 {
+			return true
+		}
+	}
+	return false
+}
+
+// checkResume: a held subscriber receives again: exactly the events of the successful writes made
+// while it was held, once each, in write order.
+func (w *writerLog) checkResume(m *lib.Monitor, in map[string]any, sig string, op Op, o obs) {
+	name := optOf(op, "name")
+	st := w.subs[name]
+	if st == nil {
+		return
+	}
+	got := splitList(part(o.ans, name))
+	owed, dlFailed := st.owed, st.dlFailed
+	st.held, st.owed, st.dlFailed = false, nil, 0
+	if len(got) < len(owed) {
+		m.Violate(sig+"/missing-event", "a successful write produced no event although no configured equivalence relates the compared pair", in, fmt.Sprint(len(owed), " events after resuming"), part(o.ans, name))
+		return
+	}
+	if len(got) > len(owed) && len(got)-len(owed) <= dlFailed {
+		m.Violate(sig+"/event-for-deadline-failed-write", "a Set that gave up announcing (a subscriber registered later did not take the event in time) was reported as failed, yet this subscriber was handed its event", in, fmt.Sprint(len(owed), " events after resuming"), part(o.ans, name))
+		return
+	}
+	if len(got) > len(owed) {
+		m.Violate(sig+"/event-for-failed-write", "a failed (or no-op) write produced an event", in, fmt.Sprint(len(owed), " events after resuming"), part(o.ans, name))
+		return
+	}
+	for k, e := range owed {
+		f := strings.Split(got[k], "|")
+		switch {
+		case f[0] != e.val:
+			m.Violate(sig+"/wrong-new", "event value is not the (projected) result returned to the writer", in, e.val, f[0])
+		case f[2] != "":
+			m.Violate(sig+"/wrong-flags", "an update is flagged as seed", in, "", f[2])
+		case !e.t.timeOK(f[1]):
+			m.Violate(sig+"/wrong-time", "change time is neither the write time nor a clock reading taken during the write", in, fmt.Sprint(e.t), f[1])
+		}
+		st.last = e.val
 	}
 }
 
@@ -947,6 +1103,14 @@ func genHistory(r *rand.Rand, n int) Script {
 				s.Ops = append(s.Ops, Op{Op: "subid", Opts: append([]string{"name=" + name, "id=" + id}, so...)})
 				continue
 			}
+			if s.Cfg.Eqv == "" && len(live) < maxLive && r.Intn(100) < 15 {
+				// two subscribers register at the same time
+				nsub++
+				name2 := fmt.Sprintf("k%d", nsub)
+				live = append(live, name2)
+				s.Ops = append(s.Ops, racefOp(name, so, name2, pick(r, subOptPool), pick(r, []string{"12", "21"})))
+				continue
+			}
 			if r.Intn(100) < 45 {
 				// the subscriber opens while a write is in flight
 				w := genWrite(r, s, o)
@@ -1091,6 +1255,30 @@ func (h *harness) raceScope(tie *lib.Tie) {
 	}
 	runE("coll", alpha, [][]string{nil, {"a~1//-"}})
 	runE("val", valpha, [][]string{nil, {"1//-"}})
+	// two subscribers inside Bus.Listen at the same time (racef): both held at bus.listen.beforeRegister,
+	// released in either order; the bus holds {no, a live, a cancelled and not yet collected} listener
+	// before; ALL pairs of subscription options; three follow-up writes must reach both
+	befores := [][]Op{nil, {{Op: "sub", Opts: []string{"name=h", "rm=a"}}},
+		{{Op: "sub", Opts: []string{"name=d"}}, {Op: "unsub", Opts: []string{"name=d"}}}}
+	runF := func(kind string, alpha []Op, inits [][]string) {
+		for _, init := range inits {
+			for _, before := range befores {
+				for _, o1 := range subOpts {
+					for _, o2 := range subOpts {
+						for _, order := range []string{"12", "21"} {
+							var ops []Op
+							ops = append(ops, before...)
+							ops = append(ops, racefOp("k", o1, "m", o2, order))
+							ops = append(ops, alpha[:3]...)
+							h.runScript(Script{Cfg: Cfg{Kind: kind, Tick: 1, Init: init}, Ops: ops}, tie)
+						}
+					}
+				}
+			}
+		}
+	}
+	runF("coll", alpha, [][]string{nil, {"a~1//-"}})
+	runF("val", valpha, [][]string{nil, {"1//-"}})
 	// a Delete overtaken, between its first read and its write lock, by another write (raced): ALL
 	// (initial contents, prefix write, Delete options, overtaking write), two subscribers watching
 	overtaking := []Op{{Op: "upd", ID: "a", Msg: "2/x/-", Opts: []string{"cia"}}, {Op: "upd", ID: "a", Msg: "3//-"},
@@ -1221,4 +1409,115 @@ func replay(f lib.Flags) int {
 	}
 	fmt.Println("replay: property holds on this input now")
 	return 0
+}
+
+// ---------------------------------------------------------------------------------------------
+// scripts that wait on the 5 s send deadline of Value.set: each in its own child process (its own bus
+// counters and yield-point hook), started first and collected last
+
+const childEnv = "C04_CHILD_SCRIPT"
+
+func childMain(js string) int {
+	var s Script
+	if err := json.Unmarshal([]byte(js), &s); err != nil {
+		fmt.Fprintln(os.Stderr, err)
+		return 2
+	}
+	installHook()
+	var out []obsJSON
+	for _, o := range runCode(s) {
+		out = append(out, obsJSON{Ans: o.ans, Clk0: o.clk0, Clk1: o.clk1, IDs: o.ids})
+	}
+	b, _ := json.Marshal(out)
+	fmt.Println(string(b))
+	return 0
+}
+
+type stallChild struct {
+	s    Script
+	cmd  *exec.Cmd
+	out  *bytes.Buffer
+	done chan error
+}
+
+func startStalls(scripts []Script) []*stallChild {
+	var cs []*stallChild
+	for _, s := range scripts {
+		js, _ := json.Marshal(s)
+		c := &stallChild{s: s, out: &bytes.Buffer{}, done: make(chan error, 1)}
+		c.cmd = exec.Command(os.Args[0])
+		c.cmd.Env = append(os.Environ(), childEnv+"="+string(js))
+		c.cmd.Stdout = c.out
+		c.cmd.Stderr = os.Stderr
+		if err := c.cmd.Start(); err != nil {
+			c.done <- err
+		} else {
+			go func() { c.done <- c.cmd.Wait() }()
+		}
+		cs = append(cs, c)
+	}
+	return cs
+}
+
+func (c *stallChild) wait() ([]obs, error) {
+	select {
+	case err := <-c.done:
+		if err != nil {
+			return nil, fmt.Errorf("stalled-subscriber child: %v", err)
+		}
+	case <-time.After(90 * time.Second):
+		c.cmd.Process.Kill()
+		return nil, fmt.Errorf("stalled-subscriber child did not finish")
+	}
+	var js []obsJSON
+	if err := json.Unmarshal(bytes.TrimSpace(c.out.Bytes()), &js); err != nil || len(js) != len(c.s.Ops) {
+		return nil, fmt.Errorf("stalled-subscriber child: bad output %q (%v)", c.out.String(), err)
+	}
+	var out []obs
+	for _, o := range js {
+		out = append(out, obs{ans: o.Ans, clk0: o.Clk0, clk1: o.Clk1, ids: o.IDs})
+	}
+	return out, nil
+}
+
+// stallScripts: layouts of healthy subscribers around a stalled one. Every script has exactly one Set
+// that waits the full deadline (thorough: also two).
+func stallScripts(thorough bool) []Script {
+	sub := func(name string, opts ...string) Op {
+		return Op{Op: "sub", Opts: append([]string{"name=" + name}, opts...)}
+	}
+	hold := func(name string) Op { return Op{Op: "hold", Opts: []string{"name=" + name}} }
+	resume := func(name string) Op { return Op{Op: "resume", Opts: []string{"name=" + name}} }
+	set := func(msg string, opts ...string) Op { return Op{Op: "vset", Msg: msg, Opts: opts} }
+	v := func(init string, ops ...Op) Script {
+		c := Cfg{Kind: "val", Tick: 1}
+		if init != "" {
+			c.Init = []string{init}
+		}
+		return Script{Cfg: c, Ops: ops}
+	}
+	out := []Script{
+		// healthy subscriber AFTER the stalled one: no event for the Set reported as failed
+		v("", sub("a", "uo"), sub("b"), hold("a"), set("1//-"), set("2//-", "wt=9"), resume("a"), set("3//-"), sub("z")),
+		// healthy subscribers before and after it, initial value, read masks
+		v("1/x/-", sub("c", "rm=a"), sub("a"), sub("b", "rm=s"), hold("a"), set("2/y/-"), set("3/y/-"), set("4//-", "ev=9//-"),
+			resume("a"), set("5/z/-", "um=s"), set("6//-")),
+		// held after a first write; the failing Set is a masked update; a subscriber opens while it is stalled
+		v("", sub("a"), set("1//-"), hold("a"), set("2/x/-", "um=s", "wt=9"), sub("b", "uo"), set("3//-"), resume("a"), set("4//-")),
+		// two held subscribers: the first has a free forwarder... the second is the one that stalls
+		v("7//-", sub("a"), sub("c"), sub("b", "rm=a"), hold("b"), set("1//-"), hold("a"), set("2//-"), resume("a"), resume("b"), set("3//-"),
+			set("4//-")),
+		// the stalled subscription is cancelled instead of resumed: the next Set collects it
+		v("", sub("c"), sub("a", "uo"), sub("b"), hold("a"), set("1//-"), set("2//-"), Op{Op: "unsub", Opts: []string{"name=a"}},
+			set("3//-"), set("4//-", "wt=3")),
+	}
+	if thorough {
+		out = append(out,
+			v("", sub("a", "uo"), sub("b"), hold("a"), set("1//-"), set("2//-"), set("3//-"), resume("a"), set("4//-")),
+			v("1//-", sub("c"), sub("a", "rm=a"), hold("a"), set("2//-"), set("3//-"), resume("a"), hold("c"), set("4//-"), set("5//-"),
+				resume("c"), set("6//-")),
+			v("", sub("a"), hold("a"), set("1//-", "ev=1//-"), set("1//-"), set("2//-"), resume("a"), sub("b"), set("3//-")),
+		)
+	}
+	return out
 }
